@@ -95,6 +95,9 @@ func runC13RO(rep *TReport, raw json.RawMessage) {
 	if r.URI == "unregistered" {
 		uri = otherURI
 	}
+	if r.URI == "registered_extended" {
+		uri = registeredURI + ".old"
+	}
 	switch r.Mode {
 	case "request":
 		q.Set("request", obj)
